@@ -192,6 +192,13 @@ C09_err_has_tok(r) ==
      /\ MissingTok(e.k) # ""
      /\ ~\E j \in 1..NT(r) : /\ r.toks[j].ty = MissingTok(e.k)
                              /\ IsEmptyTok(r.toks[j]) /\ r.toks[j].b = e.b}
+\* no more 'missing expected X' errors at an offset than zero-width X tokens there
+\* (every such error is emitted together with its recovery token)
+C09_multiplicity(r) ==
+  {i \in 1..Len(r.errs) : LET e == r.errs[i] IN
+     /\ MissingTok(e.k) # ""
+     /\ Cardinality({j \in 1..Len(r.errs) : r.errs[j].k = e.k /\ r.errs[j].b = e.b}) >
+        Cardinality({j \in 1..NT(r) : r.toks[j].ty = MissingTok(e.k) /\ IsEmptyTok(r.toks[j]) /\ r.toks[j].b = e.b})}
 \* every zero-width symbol token (except the end-of-input semicolon) has its error
 C09_tok_has_err(r) ==
   {j \in 1..NT(r) : LET t == r.toks[j] IN
@@ -213,6 +220,14 @@ StrDepths(toks, i, d, acc) ==
   ELSE LET nd == IF toks[i].ty = "StringExprStart" THEN d + 1
                  ELSE IF toks[i].ty \in StrExprEnds THEN d - 1 ELSE d
        IN StrDepths(toks, i + 1, nd, Append(acc, nd))
+\* per step: a rollback never discards the region in which an error was reported
+\* (errors are not part of the checkpoint, so such an error would be stale)
+C09_rollback(r) ==
+  LET ev == r.events IN
+  {i \in 1..Len(ev) :
+     /\ \E j \in 1..Len(ev[i].ops) : ev[i].ops[j] = "R"
+     /\ \E e \in 1..ev[i].eb : r.errs[e].b > ev[i].ba}
+
 C10_strexpr(r) ==
   LET dp == StrDepths(r.toks, 1, 0, <<0>>) IN
   {i \in 1..NT(r) :
